@@ -17,6 +17,7 @@ func init() {
 			ID: "C06",
 			Explanation: "The crash-point quantifier needs real processes; what is decided is the bookkeeping that turns a fault into the right outcome. The events watcher, in every iteration, hands the exit to the shutdown bookkeeping and, for an unexpected exit, records Runtime.ExitError (when the name is this generation's runtime name) or Extension.Crash before it cancels the flows; the first recorded fault wins (StoreIfNotExists is the only writer of that key); " +
 				"every invoke failure carries a non-nil default error response built from the first fatal error (else Sandbox.Failure), which makes the 'nil default response' panic unreachable; every launch-failure return is preceded by recording a cause; extension init/exit error reports record their fault only after the transition was accepted; the failed-invoke branch sends the cached init error else the default error before it signals DONE(fail), AwaitRelease turns a non-empty error type into ErrInvokeDoneFailed, Invoke resets before it reports, and the front end answers both failure kinds with 502 and the captured body; the cached init error does not outlive the reset. " +
+				"Added after the blind rounds: the first-fatal-error record is deleted only by the teardown; every unexpected exit cancels the flows whatever its status; the reservation is freed only on success; the latch reports a cancellation; R-ERRID for the failure statuses. " +
 				"NOT decided: which body reaches the caller at each crash point of each script (needs processes).",
 			RuleText:    "one obligation per bookkeeping rule, per launch-failure exit, per status-mapping branch",
 			Assumptions: trusted,
@@ -299,7 +300,10 @@ func checkFastInvokeFailureBranch(c *report.Ctx) {
 		}
 		// the failure DONE: in a block where invokeFailure != nil
 		failing := facts.Holds(s.Block(), func(ft an.Fact) bool {
-			return an.CmpNil(ft, false, func(v ssa.Value) bool { cl, idx := an.CallOf(v); return cl != nil && an.Callee(cl) == "L/interop.InvokeContext.Wait" && idx == 1 })
+			return an.CmpNil(ft, false, func(v ssa.Value) bool {
+				cl, idx := an.CallOf(v)
+				return cl != nil && an.Callee(cl) == "L/interop.InvokeContext.Wait" && idx == 1
+			})
 		})
 		if !failing {
 			continue
